@@ -334,4 +334,154 @@ theorem keysOf_cellTuple {t : Table} {by_ : List String} {keys : List Val}
     simp only [Function.comp_def, List.getD_eq_getElem?_getD, List.getElem?_map]
     cases xs[i]? <;> simp
 
+/-! ### assembling `ungroup (groupby t)` -/
+
+theorem optMapM_some_of_forall {α β} {l : List α} {F : α → Option β} {g : α → β}
+    (h : ∀ x ∈ l, F x = some (g x)) : l.mapM F = some (l.map g) := by
+  induction l with
+  | nil => rfl
+  | cons x xs ih =>
+    rw [List.mapM_cons, h x (by simp), ih (fun y hy => h y (by simp [hy]))]
+    rfl
+
+theorem mapM_id_ok {α β} (l : List α) (h : α → β) :
+    (l.map fun a => (Except.ok (h a) : Res β)).mapM id = .ok (l.map h) := by
+  induction l with
+  | nil => rfl
+  | cons x xs ih =>
+    simp only [List.map_cons, List.mapM_cons, id, ih, bind, Except.bind, pure, Except.pure]
+
+/-- the table `groupby` builds (see `Props.C11.groupby_table`) -/
+def groupbyTable (t : Table) (by_ : List String) (grp : String) (gs : List Grp) : VTable :=
+  keyColsOf by_ gs ++ [(grp, gs.map fun g => subTable (t.others by_) g.2)]
+
+/-- the ungrouped rows of group `g`: the sub-table's columns, then the keys as constant columns -/
+def ungroupRows (t : Table) (by_ : List String) (g : Grp) : VTable :=
+  ((t.others by_).map fun c => (c.1, pick c.2 g.2)) ++
+  (by_.zipIdx.map fun c => (c.1, List.replicate g.2.length (tupleGet c.2 g.1)))
+
+theorem rowAt_groupbyTable (t : Table) (by_ : List String) (grp : String) (gs : List Grp) (i : Nat)
+    (g : Grp) (hg : gs[i]? = some g) :
+    VTable.rowAt (groupbyTable t by_ grp gs) i =
+      (by_.zipIdx.map fun c => (c.1, tupleGet c.2 g.1)) ++ [(grp, subTable (t.others by_) g.2)] := by
+  simp only [VTable.rowAt, groupbyTable, keyColsOf, List.map_append, List.map_map, Function.comp_def,
+    List.getD_eq_getElem?_getD, List.getElem?_map, hg, Option.map_some, Option.getD_some,
+    List.map_cons, List.map_nil]
+
+theorem subCols_subTable (t : Table) (ids : List Nat) :
+    subCols (subTable t ids) = some (t.map fun c => (c.1, pick c.2 ids)) := by
+  simp only [subCols, subTable, List.mapM_map]
+  exact optMapM_some_of_forall (fun _ _ => rfl)
+
+theorem ungroupRow_groupby (t : Table) (by_ : List String) (grp : String) (g : Grp)
+    (hgb : grp ∉ by_) (ho : t.others by_ ≠ []) :
+    ungroupRow grp ((by_.zipIdx.map fun c => (c.1, tupleGet c.2 g.1)) ++
+        [(grp, subTable (t.others by_) g.2)]) = some (.ok (ungroupRows t by_ g)) := by
+  have hkeys : ∀ c ∈ (by_.zipIdx.map fun c => (c.1, tupleGet c.2 g.1)), c.1 ≠ grp := by
+    intro c hc
+    obtain ⟨c', hc', rfl⟩ := List.mem_map.1 hc
+    have : c'.1 ∈ by_.zipIdx.map (·.1) := List.mem_map.2 ⟨c', hc', rfl⟩
+    rw [List.zipIdx_map_fst] at this
+    intro h; simp only at h; exact hgb (h ▸ this)
+  have hfind : ((by_.zipIdx.map fun c => (c.1, tupleGet c.2 g.1)) ++
+      [(grp, subTable (t.others by_) g.2)]).find? (fun c => c.1 == grp) =
+      some (grp, subTable (t.others by_) g.2) := by
+    rw [find_append_right _ _ _ hkeys]; simp
+  have hrest : ((by_.zipIdx.map fun c => (c.1, tupleGet c.2 g.1)) ++
+      [(grp, subTable (t.others by_) g.2)]).filter (fun c => c.1 != grp) =
+      by_.zipIdx.map fun c => (c.1, tupleGet c.2 g.1) := by
+    rw [List.filter_append]
+    have : ([(grp, subTable (t.others by_) g.2)] : List (String × Val)).filter (fun c => c.1 != grp) = [] := by
+      simp
+    rw [this, List.append_nil]
+    apply List.filter_eq_self.2
+    intro c hc; simpa using hkeys c hc
+  have hn : VTable.nrows ((t.others by_).map fun c => (c.1, pick c.2 g.2)) = g.2.length := by
+    cases h : t.others by_ with
+    | nil => exact absurd h ho
+    | cons c cs => simp [VTable.nrows, pick]
+  simp only [ungroupRow, hfind, subCols_subTable, hrest, hn, bind, Option.bind]
+  congr 2
+  simp only [ungroupRows, List.map_map, Function.comp_def]
+  congr 1
+  apply List.filter_eq_self.2
+  intro c hc
+  obtain ⟨c', hc', rfl⟩ := List.mem_map.1 hc
+  have hcb : c'.1 ∉ by_ := by
+    have := (List.mem_filter.1 hc').2
+    simpa [Table.others] using this
+  simp only [Bool.not_eq_true', List.contains_eq_mem, decide_eq_false_iff_not, List.mem_map,
+    not_exists, not_and]
+
+  intro k hk h
+  apply hcb
+  have : k.1 ∈ by_.zipIdx.map (·.1) := List.mem_map.2 ⟨k, hk, rfl⟩
+  rw [List.zipIdx_map_fst] at this
+  rw [← h]; exact this
+
+theorem ungroup_groupbyTable (t : Table) (by_ : List String) (grp : String) (gs : List Grp)
+    (hb : by_ ≠ []) (hnd : by_.Nodup) (htn : ((t.others by_).map (·.1)).Nodup)
+    (hgb : grp ∉ by_) (ho : t.others by_ ≠ []) (hgs : gs ≠ []) :
+    (groupbyTable t by_ grp gs).ungroup grp = some (.ok (
+      ((t.others by_).map fun c => (c.1, gs.flatMap fun g => pick c.2 g.2)) ++
+      (by_.zipIdx.map fun c => (c.1, gs.flatMap fun g => List.replicate g.2.length (tupleGet c.2 g.1))))) := by
+  have hnrows : (groupbyTable t by_ grp gs).nrows = gs.length := by
+    cases by_ with
+    | nil => exact absurd rfl hb
+    | cons c cs => simp [groupbyTable, keyColsOf, VTable.nrows, List.zipIdx_cons]
+  have hrows : (List.range gs.length).mapM
+      (fun i => ungroupRow grp ((groupbyTable t by_ grp gs).rowAt i)) =
+      some (gs.map fun g => (Except.ok (ungroupRows t by_ g) : Res VTable)) := by
+    rw [← range_map_getD gs (.cell .none, []) (fun g => (Except.ok (ungroupRows t by_ g) : Res VTable))]
+    apply optMapM_some_of_forall
+    intro i hi
+    have hi' : i < gs.length := List.mem_range.1 hi
+    have hg : gs[i]? = some gs[i] := List.getElem?_eq_getElem hi'
+    rw [rowAt_groupbyTable t by_ grp gs i gs[i] hg, ungroupRow_groupby t by_ grp gs[i] hgb ho]
+    simp [List.getD_eq_getElem?_getD, hg]
+  simp only [VTable.ungroup, hnrows, hrows, bind, Option.bind, mapM_id_ok]
+  cases gs with
+  | nil => exact absurd rfl hgs
+  | cons g0 gt =>
+    simp only [List.map_cons]
+    congr 2
+    have hnames : (ungroupRows t by_ g0).map (·.1) =
+        (t.others by_).map (·.1) ++ by_.zipIdx.map (·.1) := by
+      simp [ungroupRows, List.map_map, Function.comp_def]
+    have hzn : (by_.zipIdx.map (·.1)).Nodup := by rw [List.zipIdx_map_fst]; exact hnd
+    rw [concatV, hnames, List.map_append, List.map_map, List.map_map, ← List.map_cons]
+    congr 1
+    · apply List.map_congr_left
+      intro c hc
+      simp only [Function.comp_def, List.flatMap_map]
+      congr 1
+      apply flatMap_congr'
+      intro g _
+      have h1 := find_named (fun c : String × List Cell => c.1)
+        (fun c => pick c.2 g.2) (t.others by_) htn c hc
+      simp only [ungroupRows]
+      rw [find_append_left _ _ _ _ h1]
+      rfl
+    · apply List.map_congr_left
+      intro c hc
+      simp only [Function.comp_def, List.flatMap_map]
+      congr 1
+      apply flatMap_congr'
+      intro g _
+      have h1 := find_named (fun c : String × Nat => c.1)
+        (fun c => List.replicate g.2.length (tupleGet c.2 g.1)) by_.zipIdx hzn c hc
+      simp only [ungroupRows]
+      rw [find_append_right, h1]
+      · rfl
+      · intro k hk
+        obtain ⟨k', hk', rfl⟩ := List.mem_map.1 hk
+        have hkb : k'.1 ∉ by_ := by
+          have := (List.mem_filter.1 hk').2
+          simpa [Table.others] using this
+        have hcb : c.1 ∈ by_ := by
+          have : c.1 ∈ by_.zipIdx.map (·.1) := List.mem_map.2 ⟨c, hc, rfl⟩
+          rw [List.zipIdx_map_fst] at this
+          exact this
+        intro h; apply hkb; simp only at h; rw [h]; exact hcb
+
 end Pyg
